@@ -295,8 +295,8 @@ func runC05(tr *Trace, sc *Script, rec *Recorder, scratch string) *Violation {
 			closePrivateDB(rd, "db")
 		}
 	}()
-	rdClient := &FakeClient{W: w, C: chain, Label: "rd"}
-	dlClient := &FakeClient{W: w, C: chain, Label: "dl"}
+	rdClient := &FakeClient{W: w, C: chain, Label: "rd", Epoch: w.Epoch}
+	dlClient := &FakeClient{W: w, C: chain, Label: "dl", Epoch: w.Epoch}
 	var err error
 	rd, err = reorgdetector.New(rdClient, reorgdetector.Config{DBPath: filepath.Join(dir, "rd.sqlite"),
 		CheckReorgsInterval: cfgtypes.NewDuration(time.Duration(cfg["reorg_ms"]) * time.Millisecond), FinalizedBlock: detTag}, reorgdetector.L1)
